@@ -45,12 +45,16 @@ def select(prop, tier):
     return out
 
 
-def run_one(prepared, name, timeout):
+def run_one(prepared, name, timeout, extra_flags=()):
     t0 = time.time()
-    cmd = ['cargo', 'kani'] + KANI_FLAGS + ['--harness', name]
+    cmd = ['cargo', 'kani'] + KANI_FLAGS + list(extra_flags) + ['--harness', name]
     env = dict(os.environ, CARGO_NET_OFFLINE='true')
     import signal
-    p = subprocess.Popen(cmd, cwd=prepared, stdout=subprocess.PIPE, stderr=subprocess.STDOUT, text=True, env=env, start_new_session=True)
+    def limit():
+        import resource
+        cap = int(os.environ.get('VERIF_KANI_MEM_GB', '14')) * (1 << 30)
+        resource.setrlimit(resource.RLIMIT_AS, (cap, cap))
+    p = subprocess.Popen(cmd, cwd=prepared, stdout=subprocess.PIPE, stderr=subprocess.STDOUT, text=True, env=env, start_new_session=True, preexec_fn=limit)
     try:
         out, _ = p.communicate(timeout=timeout)
     except subprocess.TimeoutExpired:
@@ -71,7 +75,7 @@ def run_one(prepared, name, timeout):
         return {'status': 'discharged', 'detail': '', 'seconds': vt, 'checks': int(nchecks.group(1)) if nchecks else 0, 'out': ''}
     if 'VERIFICATION:- FAILED' in out:
         fails = re.findall(r'Failed Checks: (.*)', out)
-        if 'out of memory' in out:
+        if 'out of memory' in out or 'CBMC failed' in out or 'std::bad_alloc' in out:
             return {'status': 'undecided', 'detail': 'cbmc out of memory', 'seconds': vt, 'out': out[-2000:]}
         real = [f for f in fails if 'unwinding assertion' not in f]
         if not real:
@@ -122,7 +126,7 @@ def collect(prop, repo, scratch, tier, only=None):
         return obls + [o], meta
     timeout = int(os.environ.get('VERIF_KANI_TIMEOUT', '480'))
     with cf.ThreadPoolExecutor(max_workers=NJOBS) as ex:
-        futs = {ex.submit(run_one, prepared, h, timeout): (h, g) for h, g in todo}
+        futs = {ex.submit(run_one, prepared, h, timeout, () if g.get('no_restrict_vtable') else ('-Z', 'restrict-vtable')): (h, g) for h, g in todo}
         for fu in cf.as_completed(futs):
             h, g = futs[fu]
             r = fu.result()
